@@ -24,6 +24,8 @@ static EVENTS: std::sync::Mutex<(Vec<fidget_core::verif::Event>, usize, usize, u
 /// number of solves given up so far; exploration stops after a few of them (what was recorded is still judged)
 static SLOW: std::sync::atomic::AtomicUsize = std::sync::atomic::AtomicUsize::new(0);
 const MAX_SLOW: usize = 4;
+/// 2 x (solves started) - (1 if one is running)
+static SOLVES: std::sync::atomic::AtomicUsize = std::sync::atomic::AtomicUsize::new(0);
 
 fn nfree_of(s: &System) -> usize {
     s.fixed.iter().filter(|f| !**f).count()
@@ -125,7 +127,10 @@ fn run<F: MathFunction + Clone>(w: &mut dyn Write, id: &mut usize, backend: &str
     // a solve is given up (status "slow": SPEC-DRIFT, not a verdict) after 10^5 iterations, at most 3 x 10^6 hook events
     let limit = (std::env::var("C19_ITER").ok().and_then(|s| s.parse().ok()).unwrap_or(100_000usize) * sys.eqs.len().max(1) * sys.vars.len()).min(3_000_000);
     *EVENTS.lock().unwrap() = (vec![], 0, keep, limit);
+    w.flush().unwrap();
+    SOLVES.fetch_add(1, std::sync::atomic::Ordering::Relaxed); // odd: a solve is running
     let mut r = vharness::catch(std::panic::AssertUnwindSafe(|| solve(&fs, &params)));
+    SOLVES.fetch_add(1, std::sync::atomic::Ordering::Relaxed);
     if let (Err(m), Ok(f)) = (&r, std::env::var("C19_RETRY").map(|s| s.parse::<usize>().unwrap())) {
         if m.contains("did not return") {
             let t = std::time::Instant::now();
@@ -201,6 +206,23 @@ fn main() {
         };
         if over { panic!("solver did not return within the iteration bound"); }
     })));
+    // A solve that stops emitting hook events cannot be given up through the event budget (observed with a seeded change:
+    // the SVD of a matrix full of NaNs inside nalgebra).  A watchdog ends the recorder when one solve has been running for
+    // two minutes of wall-clock time: exit status 3, the records written so far are judged, the hang itself is reported
+    // as SPEC-DRIFT (no verdict depends on the clock).
+    std::thread::spawn(|| {
+        let mut last = (0usize, std::time::Instant::now());
+        loop {
+            std::thread::sleep(std::time::Duration::from_secs(1));
+            let n = SOLVES.load(std::sync::atomic::Ordering::Relaxed);
+            if n != last.0 {
+                last = (n, std::time::Instant::now());
+            } else if n % 2 == 1 && last.1.elapsed().as_secs() > 120 {
+                eprintln!("c19: solve {} has not returned after two minutes: giving up", n / 2);
+                std::process::exit(3);
+            }
+        }
+    });
     let mut id = 0;
     let reps = if quick { 3 } else { 40 };
     for n in 1..=40usize {
